@@ -272,3 +272,6 @@ def check_dfsr(case, cc):
 def parts(tier):
     return [HypPart('table', table_models(), check_table, 1600, 40000),
             HypPart('dfsr', dfsr_models(), check_dfsr, 1600, 40000)]
+
+
+RULE += '  Added after the seeding rounds: zero-size entry blocks; column mnemonics that differ only in blank / NUL padding.'
